@@ -89,7 +89,7 @@ def run_family(ctx, profile, nprog, size=14, schedules=None, batch=250, clause_p
                 dl = G.direct_line(rng)
                 ds = {}
                 for _ in range(rng.randint(0, 3)):
-                    ds.setdefault(rng.randint(1, 8), []).append(rng.choice([1, 2, 3]))
+                    ds.setdefault(rng.randint(1, 8), []).append(rng.choice([1, 2, 3, 4]))
                 ev += runner.run_direct(dl, prog['vars'], schedule=ds if 'trap' in profile else None)
                 stats['direct_lines'] = stats.get('direct_lines', 0) + 1
             for e in ev:
